@@ -80,15 +80,23 @@ class FSError(Exception):
         self._msg = msg or self.default_message
         super(FSError, self).__init__()
 
+    def _format_msg(self):
+        # type: () -> Text
+        try:
+            return self._msg.format(**self.__dict__)
+        except (KeyError, IndexError, ValueError):
+            # the message was interpolated by the caller and contains
+            # literal braces (e.g. from a path): use it as it is
+            return self._msg
+
     def __str__(self):
         # type: () -> Text
         """Return the error message."""
-        msg = self._msg.format(**self.__dict__)
-        return msg
+        return self._format_msg()
 
     def __repr__(self):
         # type: () -> Text
-        msg = self._msg.format(**self.__dict__)
+        msg = self._format_msg()
         return "{}({!r})".format(self.__class__.__name__, msg)
 
 
